@@ -1,5 +1,5 @@
 """Property -> rules registry.  Rules are added here as they are built; a property without rules is not claimed."""
-from .rules import determinism, panics, wiring, traversal, annot, shape, hygiene, enums
+from .rules import determinism, panics, wiring, traversal, annot, shape, hygiene, enums, shrinking, fresh, sharing
 
 
 def _thorough_only(rule):
@@ -12,6 +12,26 @@ def _thorough_only(rule):
 
 
 PROPS = {
+    "C04": {
+        "rules": [shape.rule_shape, shrinking.rule_chirality, shrinking.rule_samesrc, shrinking.rule_declsrc, enums.rule_enum_maps({"core2axcut"}),
+                  fresh.rule_fresh, fresh.rule_maxid, traversal.rule_trav(["core2axcut::shrinking::Shrinking", "scc_core_lang::traits::substitution::SubstVar",
+                                                                          "scc_core_lang::traits::typed_free_vars::TypedFreeVars"])],
+        "text": "Structural necessary conditions of shrinking: all 18 well-typed (producer, consumer) cut shapes are handled before the "
+                "wildcard (R-SHAPE); the chirality collapse folds to the documented 6-row table (R-CHI, abstract interpretation of "
+                "shrink_binding); lifted definitions get exactly the free variables, in one order, on both sides (R-SAMESRC); generated "
+                "(co)matches enumerate the declaration with consistent tags and fresh environments (R-DECLSRC); operator/sort tables "
+                "are name-preserving (R-ENUM); fresh identifiers are fresh (R-FRESH/R-MAXID).",
+        "assumptions": ["that each arm's right-hand side is the right AxCut statement (e.g. producer-first vs consumer-first) is not decided"],
+    },
+    "C19": {
+        "rules": [sharing.rule_share],
+        "text": "Sharing discipline decided by symbolic execution of the translation functions' MIR over lazily refined shapes (finite "
+                "variant sets, no solver): a consumer or statement that reaches two or more consuming uses is the result of "
+                "share()/lift(), or is pinned to a size-bounded shape, or is iterated at most once. All fun2core functions with a "
+                "consumer parameter and all core2axcut functions with a statement parameter are covered, so a new duplicating site "
+                "is found, not only the three known ones.",
+        "assumptions": ["the degree of the polynomial is not decided; growth from other sources than duplicated continuations was not found by reading"],
+    },
     "C02": {
         "rules": [hygiene.rule_hyg, hygiene.rule_seed, enums.rule_enum_maps({"fun2core"}), enums.rule_enum_surface,
                   traversal.rule_trav(["fun::traits::used_binders::UsedBinders", "fun2core::compile::Compile"])],
@@ -25,7 +45,8 @@ PROPS = {
     "C03": {
         "rules": [traversal.rule_trav(["scc_core_lang::traits::substitution::Subst", "scc_core_lang::traits::substitution::SubstVar",
                                    "scc_core_lang::traits::uniquify::Uniquify", "scc_core_lang::traits::focus::Focusing",
-                                   "scc_core_lang::traits::focus::Bind", "scc_core_lang::traits::typed_free_vars::TypedFreeVars"]), wiring.rule_wire_intra, shape.rule_shape],
+                                   "scc_core_lang::traits::focus::Bind", "scc_core_lang::traits::typed_free_vars::TypedFreeVars"]), wiring.rule_wire_intra, shape.rule_shape,
+                  fresh.rule_fresh, fresh.rule_maxid, fresh.rule_shadow],
         "text": "Structural necessary conditions of focusing: every Subst/SubstVar/Uniquify/Focusing/Bind/TypedFreeVars impl of Core "
                 "visits every subterm (R-TRAV), uniquify dominates the focusing of definitions (R-WIRE), and only producer-only "
                 "shapes reach the `cannot happen` arms of Term<Cns> (R-SHAPE). Does not decide evaluation order or semantic equivalence.",
@@ -33,7 +54,8 @@ PROPS = {
     },
     "C05": {
         "rules": [traversal.rule_trav(["axcut::traits::free_vars::FreeVars", "axcut::traits::substitution::Subst",
-                                   "axcut::traits::typed_free_vars::TypedFreeVars", "axcut::traits::linearize::Linearizing"]), wiring.rule_wire_intra, annot.rule_annot_freevars, shape.rule_shape],
+                                   "axcut::traits::typed_free_vars::TypedFreeVars", "axcut::traits::linearize::Linearizing"]), wiring.rule_wire_intra, annot.rule_annot_freevars, shape.rule_shape,
+                  fresh.rule_fresh],
         "text": "Structural necessary conditions of linearization: every FreeVars/Subst/TypedFreeVars/Linearizing impl of AxCut visits "
                 "every sub-statement (R-TRAV), free-variable annotation precedes linearization (R-WIRE) and is set on every path "
                 "(R-ANNOT), only Substitute reaches the panic of Statement::linearize (R-SHAPE).",
